@@ -12,7 +12,8 @@ TECHNIQUE = "model-based generation of event histories (Hypothesis) over the rea
 RULE = ("A case is a history: 1-3 fake nodes that hold every user request, one statement executed through the real "
         "Session.execute_async with 0-3 speculative executions, a scripted retry policy, an optional client timeout, "
         "and a generated list of events (answer the i-th held request with rows/void/one of 9 server errors/connection "
-        "close/reset, advance the virtual clock, register another callback pair, call result() from a client thread), "
+        "close/reset, advance the virtual clock, register another callback pair, call result() from a client thread, "
+        "fetch the next page when the result has more pages -- a page fetch is an execution of its own), "
         "plus a schedule tape.  After the events every still-held request is answered (or, with a timeout, time passes "
         "beyond it).  Non-trivial: at least 2 requests of this execution reached a server (speculative execution or "
         "retry) and at least 2 responses were delivered.  Distinct by case digest.")
@@ -20,7 +21,7 @@ ASSUMPTIONS = ["network, clock, executor and event loop are simulated (sim/); Cl
                "ResponseFuture, policies are the real classes",
                "pre-emption only at blocking operations (quick) / additionally at every lock operation and clock read (thorough)"]
 
-ANSWERS = ["rows", "rows", "void"] + U.ERROR_KINDS + ["close", "reset"]
+ANSWERS = ["rows", "rows", "rows_more", "void"] + U.ERROR_KINDS + ["close", "reset"]
 
 
 def s_case(gran):
@@ -30,17 +31,21 @@ def s_case(gran):
         st.tuples(st.just("advance"), st.sampled_from([0.01, 0.05, 0.06, 0.2, 0.5, 1.0])),
         st.tuples(st.just("add_cb")),
         st.tuples(st.just("result")),
+        st.tuples(st.just("next_page")),
     )
     dec = st.tuples(st.sampled_from(["retry", "retry", "next_host", "rethrow", "ignore"]),
                     st.sampled_from([None, "ONE", "QUORUM"]))
     return st.fixed_dictionaries({
         "hosts": st.integers(1, 3),
-        "spec": st.integers(0, 3),
+        "spec": st.sampled_from([0, 1, 1, 2, 3]),
         "spec_delay": st.sampled_from([0.0, 0.05]),
-        "idempotent": st.booleans(),
+        "idempotent": st.sampled_from([True, True, True, False]),
         "timeout": st.sampled_from([None, None, 0.3, 1.0]),
         "decisions": st.lists(dec, max_size=4),
-        "events": st.lists(ev, max_size=10),
+        "events": st.builds(lambda warm, evs: warm + evs,
+                            st.sampled_from([[], [("advance", 0.06)], [("advance", 0.06), ("advance", 0.06)],
+                                             [("advance", 0.06), ("advance", 0.06), ("advance", 0.06)]]),
+                            st.lists(ev, min_size=1, max_size=12)),
         "tape": st.lists(st.integers(0, 3), max_size=30 if gran == "locks" else 8),
         "gran": st.just(gran),
     })
@@ -92,6 +97,7 @@ def _run(case, ctx, sim):
             results.append(("err", e))
 
     delivered = 0
+    pages = [0]
 
     def check_counts(where):
         for p in pairs:
@@ -110,8 +116,24 @@ def _run(case, ctx, sim):
             if not held:
                 continue
             node, conn, req = held[ev[1] % len(held)]
-            U.release(net, node, conn, req, ev[2])
+            if ev[2] == "rows_more":
+                U.release(net, node, conn, req, "rows", paging_state=b"ps%d" % delivered)
+            else:
+                U.release(net, node, conn, req, ev[2])
             delivered += 1
+        elif ev[0] == "next_page":
+            # a page fetch is an execution of its own: exactly one more outcome per registered pair
+            if fut._event.is_set() and fut._final_exception is None and fut.has_more_pages:
+                for p in pairs:
+                    if p.total != 1:
+                        ctx.fail(["C14.delivered", "never-called"],
+                                 "page complete but callback pair %s was invoked %d times" % (p.name, p.total))
+                    del p.cb[:]
+                    del p.eb[:]
+                del results[:]
+                pages[0] += 1
+                with ctx.driver(["C14.next_page"]):
+                    sim.call(fut.start_fetching_next_page)
         elif ev[0] == "advance":
             sim.advance(ev[1])
         elif ev[0] == "add_cb":
@@ -177,6 +199,8 @@ def _run(case, ctx, sim):
               "done" if done else "not-done")
     if rlog:
         ctx.label("retry-consulted")
+    if pages[0]:
+        ctx.label("page-fetches>0")
     if any(p.eb for p in pairs):
         ctx.label("outcome:error")
     elif any(p.cb for p in pairs):
